@@ -27,6 +27,7 @@ PROP = {
         "bytes are 0..255 (byte_ok) and headers have 10 bytes: what Go's types guarantee",
         "the assembler model reads the clock once per accept call; the code reads it for the T4 test and again for the T4 base within the same call",
         "bit operations of the Go code are modelled arithmetically (mod/div); the tie is the hook differential, not the translator (no secs1 function fits its subset); constants are translated and bridged",
+        "one assembler state per connection generation: after a line drop + reconnect the model restarts from astate0 (no partial message, no duplicate record survives); the e2e pass checks this with sequences that span a TCP drop, in all four role/mode combinations",
         "deliverFrame (rt.DeliverOwnedFrame) is outside the model: a delivery is the frame handed to it",
     ],
 }
